@@ -35,6 +35,8 @@ import (
 	"fmt"
 	"hash/fnv"
 	"math"
+	"os"
+	"strings"
 	"sync"
 	"sync/atomic"
 	"testing"
@@ -124,7 +126,7 @@ func (w *c10W) build(enc Encoding, ss []c10S, mode, at int) (Chunk, *c10Fail) {
 				c.Compact()
 			}
 			if err != nil {
-				return nil, &c10Fail{c10ModeNames[mode] + "/appender-error", fmt.Sprintf("re-opening the appender before sample %d: %v", i, err)}
+				return nil, &c10Fail{"appender-error", fmt.Sprintf("re-opening the appender before sample %d: %v", i, err)}
 			}
 		}
 		app.Append(s.ST, s.T, math.Float64frombits(s.V))
@@ -287,14 +289,15 @@ type c10Opts struct {
 }
 
 // check runs the whole oracle for one sample sequence; it returns the first failure and the chunk bytes.
-func (w *c10W) check(enc Encoding, ss []c10S, o c10Opts) (fail *c10Fail, bytes []byte) {
+func (w *c10W) check(enc Encoding, ss []c10S, o c10Opts) (fails []*c10Fail, bytes []byte) {
 	c, f := w.build(enc, ss, c10RNone, 0)
 	if f != nil {
-		return f, nil
+		return []*c10Fail{f}, nil
 	}
 	bytes = c.Bytes()
 	if f := w.verify(c, enc, ss, true); f != nil {
-		return f, bytes
+		// plain append/iterate is broken: the derived checks would only repeat it
+		return []*c10Fail{f}, bytes
 	}
 	if o.verifyPrefix {
 		for n := 1; n < len(ss); n++ {
@@ -304,7 +307,8 @@ func (w *c10W) check(enc Encoding, ss []c10S, o c10Opts) (fail *c10Fail, bytes [
 			}
 			if f != nil {
 				f.sig = "prefix/" + f.sig
-				return f, bytes
+				fails = append(fails, f)
+				break
 			}
 		}
 	}
@@ -323,27 +327,33 @@ func (w *c10W) check(enc Encoding, ss []c10S, o c10Opts) (fail *c10Fail, bytes [
 		}
 		return f
 	}
+	// Each re-open mode is explored independently (a failure in one mode does not hide the others);
+	// within a mode the first failing position is reported.
+	var failed [c10RCompact + 1]bool
+	try := func(mode, at int) {
+		if failed[mode] {
+			return
+		}
+		if f := redo(mode, at); f != nil {
+			failed[mode] = true
+			fails = append(fails, f)
+		}
+	}
 	if o.reopenEach {
 		for at := 1; at < len(ss); at++ {
 			for mode := c10RSame; mode <= c10RCompact; mode++ {
-				if f := redo(mode, at); f != nil {
-					return f, bytes
-				}
-			}
-		}
-	}
-	if o.reopenEvery && len(ss) > 2 {
-		for mode := c10RSame; mode <= c10RCompact; mode++ {
-			if f := redo(mode, -1); f != nil {
-				return f, bytes
+				try(mode, at)
 			}
 		}
 	}
 	for _, at := range o.reopenAt {
 		if at >= 1 && at < len(ss) {
-			if f := redo(c10RBytes, at); f != nil {
-				return f, bytes
-			}
+			try(c10RBytes, at)
+		}
+	}
+	if o.reopenEvery && len(ss) > 2 {
+		for mode := c10RSame; mode <= c10RCompact; mode++ {
+			try(mode, -1)
 		}
 	}
 	if o.seekKs != nil {
@@ -355,25 +365,28 @@ func (w *c10W) check(enc Encoding, ss []c10S, o c10Opts) (fail *c10Fail, bytes [
 			}
 		}
 		tg := w.targets(ss)
+	seeks:
 		for _, k := range ks {
 			if k > len(ss) {
 				continue
 			}
 			for _, t := range tg {
 				if f := w.seekOne(c, enc, ss, k, t, false, 0, o.seekCont); f != nil {
-					return f, bytes
+					fails = append(fails, f)
+					break seeks
 				}
 				if o.seekDouble {
 					for _, t2 := range tg {
 						if f := w.seekOne(c, enc, ss, k, t, true, t2, o.seekCont); f != nil {
-							return f, bytes
+							fails = append(fails, f)
+							break seeks
 						}
 					}
 				}
 			}
 		}
 	}
-	return nil, bytes
+	return fails, bytes
 }
 
 // ---------------------------------------------------------------------------
@@ -452,7 +465,7 @@ var (
 )
 
 func c10ShortAlpha(enc Encoding, level int) *c10Alpha {
-	// level 0: reduced (4-5 samples), 1: quick full, 2: thorough full, 3: tiny (longest sequences)
+	// level 0: reduced (4 samples, thorough), 4: smaller reduced (4 samples, quick), 1: quick full, 2: thorough full, 3: tiny (longest sequences)
 	a := &c10Alpha{}
 	dods := c10DodXOR2
 	if enc == EncXOR {
@@ -469,17 +482,26 @@ func c10ShortAlpha(enc Encoding, level int) *c10Alpha {
 		a.st1 = []c10STAtom{{'s', 0}, {'z', 0}, {'j', 33}}
 		a.st = []c10STAtom{{'s', 0}, {'j', 0}, {'j', -4}, {'a', math.MaxInt64}}
 	case 1:
-		a.t0 = []int64{0, -c10MaxT, 1700000000000, c10MaxT - (1 << 42)}
-		a.d1 = []int64{1, 1000, 600000, 1 << 41}
-		a.dod = dods[:13]
+		a.t0 = []int64{0, -c10MaxT, c10MaxT - (1 << 42)}
+		a.d1 = []int64{1, 600000, 1 << 41}
+		a.dod = []int64{0, 1, -1, 4095, 4096, -4096, -4097, 524288, -524289}
 		if enc == EncXOR {
-			a.dod = dods[:17]
+			a.dod = []int64{0, 1, -1, 8192, 8193, -8191, -8192, 65536, -65536, 524288, -524288}
 		}
-		a.v0 = []uint64{c10One, c10Stale, 1 << 63, 1}
-		a.v = c10VAll[:5]
+		a.v0 = []uint64{c10One, c10Stale, 1}
+		a.v = []uint64{c10One, c10One + 1, c10Stale, 1 << 63}
 		a.st0 = []c10STAtom{{'z', 0}, {'r', 5}, {'a', math.MinInt64}}
-		a.st1 = []c10STAtom{{'s', 0}, {'z', 0}, {'j', 1}, {'j', -256}, {'a', math.MaxInt64}}
-		a.st = []c10STAtom{{'s', 0}, {'z', 0}, {'j', 0}, {'j', 1}, {'j', -4}, {'j', 33}, {'j', 257}, {'a', math.MaxInt64}}
+		a.st1 = []c10STAtom{{'s', 0}, {'z', 0}, {'j', 1}, {'j', -256}}
+		a.st = []c10STAtom{{'s', 0}, {'z', 0}, {'j', 0}, {'j', -4}, {'j', 33}, {'a', math.MaxInt64}}
+	case 4:
+		a.t0 = []int64{0, -c10MaxT}
+		a.d1 = []int64{600000, 1 << 41}
+		a.dod = []int64{0, dods[4], dods[5], -(1 << 40)}
+		a.v0 = []uint64{c10One, c10Stale}
+		a.v = []uint64{c10One, c10Two, c10Stale}
+		a.st0 = []c10STAtom{{'z', 0}, {'r', 5}}
+		a.st1 = []c10STAtom{{'s', 0}, {'z', 0}, {'j', 33}}
+		a.st = []c10STAtom{{'s', 0}, {'j', -4}, {'a', math.MaxInt64}}
 	case 3:
 		a.t0 = []int64{0, -c10MaxT}
 		a.d1 = []int64{600000, 1 << 41}
@@ -491,13 +513,13 @@ func c10ShortAlpha(enc Encoding, level int) *c10Alpha {
 		a.st = []c10STAtom{{'s', 0}, {'j', 1}, {'z', 0}}
 	default:
 		a.t0 = []int64{0, -c10MaxT, 1700000000000, c10MaxT - (1 << 42)}
-		a.d1 = []int64{1, 1000, 600000, 1 << 41, 15000}
+		a.d1 = []int64{1, 1000, 600000, 1 << 41}
 		a.dod = dods
 		a.v0 = []uint64{c10One, c10Stale, 1 << 63, 1}
-		a.v = c10VAll[:9]
+		a.v = c10VAll[:7]
 		a.st0 = []c10STAtom{{'z', 0}, {'r', 5}, {'a', math.MinInt64}}
-		a.st1 = []c10STAtom{{'s', 0}, {'z', 0}, {'j', 1}, {'j', 5}, {'j', -256}, {'a', math.MaxInt64}, {'j', -3}, {'j', 2049}}
-		a.st = c10STEdges[:16]
+		a.st1 = []c10STAtom{{'s', 0}, {'z', 0}, {'j', 1}, {'j', 5}, {'j', -256}, {'a', math.MaxInt64}}
+		a.st = c10STEdges[:12]
 	}
 	if enc == EncXOR {
 		a.st0, a.st1, a.st = []c10STAtom{{'z', 0}}, []c10STAtom{{'z', 0}}, []c10STAtom{{'z', 0}}
@@ -575,8 +597,8 @@ func c10DodPart(enc Encoding, thorough bool) c10Part {
 	if thorough {
 		dods = c10Range(-524300, 524300, nil)
 	} else {
-		dods = c10Range(-8200, 8200, nil)
-		for _, e := range []int64{65536, 524288} {
+		dods = c10Range(-4200, 4200, nil)
+		for _, e := range []int64{8192, 65536, 524288} {
 			dods = c10Range(e-8, e+8, dods)
 			dods = c10Range(-e-8, -e+8, dods)
 		}
@@ -588,7 +610,7 @@ func c10DodPart(enc Encoding, thorough bool) c10Part {
 	}
 	shifts := 8
 	if thorough {
-		shifts = 3 // the full range is swept at alignments 0..2; every alignment is covered by the quick list below
+		shifts = 2 // the full range is swept at two alignments; every alignment is covered by the edge list of the quick part
 	}
 	dims := []int{len(dods), shifts, 3, nST, 2}
 	return c10Part{
@@ -644,7 +666,9 @@ func c10DodPart(enc Encoding, thorough bool) c10Part {
 func c10STDodPart(thorough bool) c10Part {
 	var ks []int64
 	if thorough {
-		ks = c10Range(-140000, 140000, nil)
+		ks = c10Range(-20000, 20000, nil)
+		ks = c10Range(131072-3, 131072+3, ks)
+		ks = c10Range(-131072-3, -131072+3, ks)
 	} else {
 		ks = c10Range(-2100, 2100, nil)
 		ks = c10Range(131072-3, 131072+3, ks)
@@ -744,18 +768,23 @@ func c10CycSample(prev []c10S, atom [3]int, enc Encoding) c10S {
 	return c10S{ST: st, T: t, V: v}
 }
 
-func c10LongOpts(n int) c10Opts {
+func c10LongOpts(n int, allPositions bool) c10Opts {
 	if n > 2000 {
 		return c10Opts{reopenAt: []int{1, 2, 3, 126, 127, 128, 129, n / 2, n - 1}}
 	}
-	at := make([]int, 0, n)
-	for i := 1; i < n; i++ {
-		at = append(at, i)
+	// reopenEvery re-opens before every position in one build (each sample is then written by a
+	// freshly reconstructed appender); single re-opens are tried at the listed positions.
+	at := []int{1, 2, 3, 63, 64, 65, 126, 127, 128, 129, 130, 200, n - 2, n - 1}
+	if allPositions {
+		at = at[:0]
+		for i := 1; i < n; i++ {
+			at = append(at, i)
+		}
 	}
-	return c10Opts{reopenAt: at, reopenEvery: true, seekKs: []int{0, 1, n / 2}, seekCont: 2}
+	return c10Opts{reopenAt: at, reopenEvery: true, seekKs: []int{0, n / 2}, seekCont: 1}
 }
 
-func c10CyclePart(enc Encoding, period, n int) c10Part {
+func c10CyclePart(enc Encoding, period, n int, allPositions bool) c10Part {
 	nST := len(c10CycSTs)
 	if enc == EncXOR {
 		nST = 1
@@ -785,16 +814,20 @@ func c10CyclePart(enc Encoding, period, n int) c10Part {
 				p := j % period
 				ss = append(ss, c10CycSample(ss, [3]int{f[3*p], f[3*p+1], f[3*p+2]}, enc))
 			}
-			return enc, ss, c10LongOpts(n), true
+			return enc, ss, c10LongOpts(n, allPositions), true
 		},
 	}
 }
 
 // first ST change at index F of a 260-sample chunk (the header can only name indices <= 127).
-func c10FirstChangePart(n int) c10Part {
+func c10FirstChangePart(n int, thorough bool) c10Part {
 	fs := []int{1, 2, 3, 126, 127, 128, 129, 200, n - 1}
 	after := []c10STAtom{{'r', 5}, {'j', 0}, {'j', 1}, {'z', 0}, {'a', 42}, {'j', -256}}
-	dims := []int{len(fs), len(after), len(c10CycDeltas), len(c10CycVals), 2}
+	nd, nv := 2, 2
+	if thorough {
+		nd, nv = len(c10CycDeltas), len(c10CycVals)
+	}
+	dims := []int{len(fs), len(after), nd, nv, 2}
 	return c10Part{
 		name:     fmt.Sprintf("firstchange/xor2/n%d", n),
 		count:    vx.ProductSize(dims),
@@ -815,7 +848,7 @@ func c10FirstChangePart(n int) c10Part {
 				}
 				ss = append(ss, s)
 			}
-			return EncXOR2, ss, c10LongOpts(n), true
+			return EncXOR2, ss, c10LongOpts(n, thorough), true
 		},
 	}
 }
@@ -885,7 +918,7 @@ func c10Parts(r *vx.Run) []c10Part {
 			for n := 1; n <= 3; n++ {
 				ps = append(ps, c10ShortPart(enc, n, 2, 1))
 			}
-			ps = append(ps, c10ShortPart(enc, 4, vx.Pick(r, 0, 1), vx.Pick[int64](r, 1, 16)), c10ShortPart(enc, 5, 0, 1))
+			ps = append(ps, c10ShortPart(enc, 4, vx.Pick(r, 0, 1), 1), c10ShortPart(enc, 5, 0, 1))
 			if th {
 				ps = append(ps, c10ShortPart(enc, 6, 0, 16))
 			}
@@ -893,7 +926,7 @@ func c10Parts(r *vx.Run) []c10Part {
 			for n := 1; n <= 3; n++ {
 				ps = append(ps, c10ShortPart(enc, n, vx.Pick(r, 1, 2), vx.Pick[int64](r, 1, 16)))
 			}
-			ps = append(ps, c10ShortPart(enc, 4, 0, 1))
+			ps = append(ps, c10ShortPart(enc, 4, vx.Pick(r, 4, 0), 1))
 			if th {
 				ps = append(ps, c10ShortPart(enc, 5, 3, 16))
 			}
@@ -906,15 +939,27 @@ func c10Parts(r *vx.Run) []c10Part {
 			if enc == EncXOR2 && p == 3 {
 				continue // 110k cycles x 260^2: left to period 3 on the XOR alphabet and period 2 here
 			}
-			ps = append(ps, c10CyclePart(enc, p, 260))
+			ps = append(ps, c10CyclePart(enc, p, 260, th || p == 1))
 		}
-		ps = append(ps, c10CyclePart(enc, 1, math.MaxUint16))
+		ps = append(ps, c10CyclePart(enc, 1, math.MaxUint16, false))
 	}
 	ps = append(ps, c10STDodPart(false))
 	if th {
 		ps = append(ps, c10STDodPart(true))
 	}
-	ps = append(ps, c10FirstChangePart(260))
+	ps = append(ps, c10FirstChangePart(260, th))
+	// development aid: VERIF_C10_PARTS=<substring> restricts the run to matching parts (the run is
+	// then marked non-exhaustive).
+	if sel := os.Getenv("VERIF_C10_PARTS"); sel != "" {
+		var keep []c10Part
+		for _, p := range ps {
+			if strings.Contains(p.name, sel) {
+				keep = append(keep, p)
+			}
+		}
+		r.NotExhaustive("VERIF_C10_PARTS=" + sel)
+		return keep
+	}
 	return ps
 }
 
@@ -924,7 +969,7 @@ func c10RunCase(r *vx.Run, p *c10Part, i int64) (ok bool, h uint64, outcome stri
 	var (
 		enc   Encoding
 		ss    []c10S
-		fail  *c10Fail
+		fails []*c10Fail
 		bytes []byte
 		valid bool
 	)
@@ -933,25 +978,27 @@ func c10RunCase(r *vx.Run, p *c10Part, i int64) (ok bool, h uint64, outcome stri
 		enc, ss, o, valid = p.gen(w, i)
 		valid = valid && c10InStatement(ss)
 		if valid {
-			fail, bytes = w.check(enc, ss, o)
+			fails, bytes = w.check(enc, ss, o)
 		}
 	})
 	if pn != nil {
-		fail = &c10Fail{"panic", fmt.Sprintf("%v\n%s", pn, stack)}
+		fails = []*c10Fail{{"panic", fmt.Sprintf("%v\n%s", pn, stack)}}
 		*w = c10W{pool: NewPool()}
 		valid = true
 	}
 	if !valid {
 		return false, 0, ""
 	}
-	if fail != nil {
+	if len(fails) > 0 {
 		rp := c10Replay{Part: p.name, Index: i, Enc: c10EncName(enc)}
 		desc := fmt.Sprintf("%d samples", len(ss))
 		if len(ss) <= 16 {
 			rp.Samples = append([]c10S{}, ss...)
 			desc = fmt.Sprintf("samples (st,t,vbits) %s", c10Desc(ss))
 		}
-		r.Violation(c10EncName(enc)+"/"+fail.sig, fmt.Sprintf("%s case %d, %s: %s", p.name, i, desc, fail.msg), rp)
+		for _, fail := range fails {
+			r.Violation(c10EncName(enc)+"/"+fail.sig, fmt.Sprintf("%s case %d, %s: %s", p.name, i, desc, fail.msg), rp)
+		}
 		return true, 0, "violation"
 	}
 	hh := fnv.New64a()
